@@ -230,6 +230,49 @@ pub fn dparse(fields: &[&str]) -> String
 		tags.join(",")
 	)
 }
+
+/// dtokens <bytes>: the second-generation token stream in the wire format of the Lean syntax model:
+/// `Kind:hex(text):value:type` separated by spaces; text = identifier / builtin name, literal spelling,
+/// body of a string literal
+pub fn dtokens(fields: &[&str]) -> String
+{
+	let src = unescape(fields.get(0).copied().unwrap_or(""));
+	let tokens = lexer::lex(&src, "f.pn");
+	if let Some(errors) = tokens.errors()
+	{
+		return format!("lexerr codes={}", crate::codes_str(&errors.codes()));
+	}
+	let mut out = Vec::new();
+	let mut id = tokens.first_token_id();
+	for (i, b) in tokens.base_tokens().iter().enumerate()
+	{
+		if i > 0
+		{
+			tokens.advance(&mut id);
+		}
+		let loc = tokens.get_location(id);
+		let textb = src.get(loc.span.clone()).unwrap_or(&[]);
+		let mut text = String::from_utf8_lossy(textb).to_string();
+		let vap = tokens.get_value_type_and_payload(id);
+		let payload = tokens.get_integer_payload(vap.payload_id()).unwrap_or(0);
+		let mut vt = String::new();
+		match b
+		{
+			BaseToken::EndOfSource => text.clear(),
+			BaseToken::Builtin => text = text.trim_end_matches('!').to_string(),
+			BaseToken::StringLiteral =>
+			{
+				let inner = text.strip_prefix('"').unwrap_or(&text);
+				let inner = inner.strip_suffix('"').unwrap_or(inner);
+				text = inner.to_string();
+			}
+			BaseToken::ValueTypeKeyword | BaseToken::SuffixedInteger => vt = vt_name(vap.value_type()),
+			_ => (),
+		}
+		out.push(format!("{:?}:{}:{}:{}", b, crate::hex(text.as_bytes()), payload, vt));
+	}
+	format!("ok {}", out.join(" "))
+}
 /// fuzz <kb>: exactly what `penne fuzz tokens --kb <kb>` does (src/main.rs: do_fuzzing), then both real lexers
 pub fn fuzz(fields: &[&str]) -> String
 {
